@@ -59,10 +59,10 @@ theorem fillRows_ok (all : List (Row α)) : ∀ (rs : List (Row α)) (ie : Nat) 
     simp only at h
     split at h
     · cases h
-    · split at h
-      · rename_i hidx
-        by_cases hfirst : (b.itime == 0 && b.imu == 0 && b.iphi == 0) = true
-        · simp only [hfirst, if_true] at h hidx
+    · by_cases hfirst : (b.itime == 0 && b.imu == 0 && b.iphi == 0) = true
+      · simp only [hfirst, if_true] at h
+        split at h
+        · rename_i hidx
           obtain ⟨c1, c2, c3, c4, c5, c6, c7, c8, c9, c10, c11, c12, c13⟩ := ih _ _ _ h
           simp only [B.cur] at c1 c2 ⊢
           refine ⟨?_, c2, c3, c4, c5, c6, c7, c8, c9, c10, ?_, ?_, fun _ => hidx.2⟩
@@ -73,8 +73,11 @@ theorem fillRows_ok (all : List (Row α)) : ∀ (rs : List (Row α)) (ie : Nat) 
             rcases List.mem_cons.1 hp with e | hp
             · subst e; exact hidx.1
             · exact c12 p hp
-        · have hf : (b.itime == 0 && b.imu == 0 && b.iphi == 0) = false := by simpa using hfirst
-          simp only [hf, Bool.false_eq_true, if_false] at h hidx
+        · cases h
+      · have hf : (b.itime == 0 && b.imu == 0 && b.iphi == 0) = false := by simpa using hfirst
+        simp only [hf, Bool.false_eq_true, if_false] at h
+        split at h
+        · rename_i hidx
           obtain ⟨c1, c2, c3, c4, c5, c6, c7, c8, c9, c10, c11, c12, c13⟩ := ih _ _ _ h
           simp only [B.cur] at c1 c2 ⊢
           refine ⟨?_, c2, c3, c4, c5, c6, c7, c8, c9, c10, ?_, ?_, fun _ => hidx.2⟩
@@ -85,7 +88,7 @@ theorem fillRows_ok (all : List (Row α)) : ∀ (rs : List (Row α)) (ie : Nat) 
             rcases List.mem_cons.1 hp with e | hp
             · subst e; exact hidx.1
             · exact c12 p hp
-      · cases h
+        · cases h
 
 /-- the indices in force for each block of the sequence -/
 def cursors (c : Cur) : List (Block α) → List Cur
@@ -141,14 +144,12 @@ theorem fill_cells : ∀ (d : List (Block α)) (b b' : B α), fill b d = .ok b' 
           intro e; rw [e] at hp; simp at hp
         have h13 := c13 hne
         have h12 := c12 p hp
-        have hcs : (stepKeys b k).cur = curStep b.cur k := s1
-        simp only [B.cur] at hcs
         simp only [Function.comp]
         rw [s3] at h12
         rw [s4, s5, s6] at h13
-        have e1 : (curStep b.cur k).1 = (stepKeys b k).itime := by rw [← hcs]
-        have e2 : (curStep b.cur k).2.1 = (stepKeys b k).imu := by rw [← hcs]
-        have e3 : (curStep b.cur k).2.2 = (stepKeys b k).iphi := by rw [← hcs]
+        have e1 : (curStep b.cur k).1 = (stepKeys b k).itime := (congrArg (fun c : Cur => c.1) s1).symm
+        have e2 : (curStep b.cur k).2.1 = (stepKeys b k).imu := (congrArg (fun c : Cur => c.2.1) s1).symm
+        have e3 : (curStep b.cur k).2.2 = (stepKeys b k).iphi := (congrArg (fun c : Cur => c.2.2) s1).symm
         exact ⟨h12, by rw [e1]; exact h13.1, by rw [e2]; exact h13.2.1, by rw [e3]; exact h13.2.2⟩
       have finish : ∀ b2 : B α, b2.cur = b1.cur → b2.cells = b1.cells → b2.ne = b1.ne → b2.nt = b1.nt →
           b2.nmu = b1.nmu → b2.nphi = b1.nphi → fill b2 ks = .ok b' →
@@ -176,7 +177,95 @@ theorem fill_cells : ∀ (d : List (Block α)) (b b' : B α), fill b d = .ok b' 
         rw [hi] at h
         simp only at h
         split at h
-        · exact finish _ rfl rfl rfl rfl rfl rfl h
+        · exact finish { b1 with integ := ((b1.itime, b1.imu, b1.iphi), v) :: b1.integ } rfl rfl rfl rfl rfl rfl h
         · cases h
+
+/-! ### looking a cell up -/
+
+theorem lookup_append {κ ν : Type} [BEq κ] (l1 l2 : List (κ × ν)) (k : κ) :
+    lookup (l1 ++ l2) k = (lookup l1 k).or (lookup l2 k) := by
+  unfold lookup
+  rw [List.find?_append]
+  cases List.find? (fun x => x.1 == k) l1 <;> simp
+
+theorem lookup_nil {κ ν : Type} [BEq κ] (k : κ) : lookup ([] : List (κ × ν)) k = none := rfl
+
+theorem lookup_single (key key' : Key) (r : Row α) :
+    lookup [(key, r)] key' = if key = key' then some r else none := by
+  unfold lookup
+  by_cases e : key = key'
+  · subst e; simp [List.find?]
+  · have : (key == key') = false := by simpa using e
+    simp [List.find?, this, e]
+
+/-- the rows of one block: row `ie` is found under `(ie, c)` and nowhere else -/
+theorem lookup_blockCells (c c' : Cur) (rows : List (Row α)) (start ie : Nat) :
+    lookup (blockCells c rows start).reverse (ie, c'.1, c'.2.1, c'.2.2) =
+      if c' = c ∧ start ≤ ie ∧ ie < start + rows.length then rows[ie - start]? else none := by
+  induction rows generalizing start with
+  | nil => simp [blockCells, lookup_nil]
+  | cons r rest ih =>
+    have hcons : blockCells c (r :: rest) start = ((start, c.1, c.2.1, c.2.2), r) :: blockCells c rest (start + 1) := by
+      simp [blockCells, List.zipIdx_cons]
+    rw [hcons, List.reverse_cons, lookup_append, ih (start + 1), lookup_single]
+    by_cases hc : c' = c
+    · subst hc
+      by_cases h1 : start + 1 ≤ ie ∧ ie < start + 1 + rest.length
+      · have hlt : ie - (start + 1) < rest.length := by omega
+        rw [if_pos ⟨rfl, h1⟩, List.getElem?_eq_getElem hlt]
+        simp only [Option.or_some]
+        rw [if_pos ⟨rfl, by omega, by simp; omega⟩]
+        have : ie - start = (ie - (start + 1)) + 1 := by omega
+        rw [this, List.getElem?_cons_succ, List.getElem?_eq_getElem hlt]
+      · rw [if_neg (fun h => h1 h.2)]
+        simp only [Option.none_or]
+        by_cases e : ie = start
+        · subst e
+          rw [if_pos rfl, if_pos ⟨rfl, Nat.le_refl _, by simp⟩]
+          simp
+        · rw [if_neg (by intro h; injection h with h; exact e h.symm)]
+          rw [if_neg (by intro h; simp only [List.length_cons] at h; omega)]
+    · rw [if_neg (fun h => hc h.1), if_neg (fun h => hc h.1)]
+      simp only [Option.none_or]
+      rw [if_neg]
+      intro h
+      apply hc
+      injection h with h1 h2
+      injection h2 with h2 h3
+      injection h3 with h3 h4
+      exact Prod.ext h2.symm (Prod.ext h3.symm h4.symm)
+
+theorem lookup_cellsOf_none (d : List (Block α)) (c c' : Cur) (ie : Nat) (h : c' ∉ cursors c d) :
+    lookup (cellsOf c d) (ie, c'.1, c'.2.1, c'.2.2) = none := by
+  induction d generalizing c with
+  | nil => rfl
+  | cons k ks ih =>
+    simp only [cursors, List.mem_cons, not_or] at h
+    rw [cellsOf, lookup_append, ih _ h.2, lookup_blockCells, if_neg (fun hh => h.1 hh.1)]
+    rfl
+
+/-- **when no two blocks are read under the same indices, every printed row is found under the row index in its block
+and the indices in force for its block** -/
+theorem lookup_cellsOf (d : List (Block α)) (c : Cur) (hnd : (cursors c d).Nodup) (k : Nat) (hk : k < d.length)
+    (ie : Nat) (hie : ie < d[k].rows.length) :
+    ∃ cu, (cursors c d)[k]? = some cu ∧
+      lookup (cellsOf c d) (ie, cu.1, cu.2.1, cu.2.2) = some (d[k].rows[ie]) := by
+  induction d generalizing c k with
+  | nil => simp at hk
+  | cons b ks ih =>
+    simp only [cursors, List.nodup_cons] at hnd
+    cases k with
+    | zero =>
+      refine ⟨curStep c b, rfl, ?_⟩
+      rw [cellsOf, lookup_append, lookup_cellsOf_none ks _ _ ie hnd.1, lookup_blockCells]
+      simp only [Option.none_or]
+      rw [if_pos ⟨rfl, Nat.zero_le _, by simpa using hie⟩]
+      simp only [Nat.sub_zero]
+      exact List.getElem?_eq_getElem hie
+    | succ j =>
+      obtain ⟨cu, hcu, hl⟩ := ih (curStep c b) hnd.2 j (by simpa using hk) (by simpa using hie)
+      refine ⟨cu, by simpa [cursors] using hcu, ?_⟩
+      rw [cellsOf, lookup_append, hl]
+      simp
 
 end T4Spec
